@@ -61,6 +61,20 @@ class Faulty:
         return self.fn(*a, **kw)
 
 
+class Reentrant(Faulty):
+    """at its k-th invocation the callback first re-enters the library (self.nested), then answers normally"""
+
+    def __init__(self, fn, nested, k):
+        Faulty.__init__(self, fn, 0)
+        self.nested, self.at = nested, k
+
+    def __call__(self, *a, **kw):
+        self.n += 1
+        if self.n == self.at:
+            return self.nested(*a, **kw)
+        return self.fn(*a, **kw)
+
+
 def norm(w, x, extra=()):
     """normalise an answer for comparison between runs"""
     if x is None or isinstance(x, (int, float, bool)):
@@ -212,6 +226,31 @@ def run_ro(w, S, spec):
                 again, _ = run_with(wk, {})
                 out.append({"kind": "ro", "op": name, "cb": cbname, "k": k, "pre": pre, "post": post, "clean": clean,
                             "again": again, "faulted": faulted})
+        # a callback that RE-ENTERS the library: at one of its invocations it runs the same read-only operation on the
+        # other universe (which shares vertices with this one) and then answers normally.  What the outer call returns
+        # then is its own business; the graph must be as before and a later well-behaved call must answer normally.
+        base = name[:-6] if name.endswith("[part]") else name + "[part]"
+        inner_runner = next((r for n2, _, r in ops if n2 == base), runner)
+        for cbname in cbs:
+            for k in sorted({1, counts[cbname]} - {0}):
+                if sel is not None and P.h(name, cbname, "re", k, S["ends"]) % sel:
+                    continue
+                wk = fresh_wrappers()
+                if wk[cbname] is None:
+                    continue
+                plain = wk[cbname].fn
+
+                def reenter(*a, _plain=plain, _cbname=cbname, **kw):
+                    inner = fresh_wrappers()
+                    guarded(lambda: inner_runner(inner))
+                    return _plain(*a, **kw)
+                wk[cbname] = Reentrant(plain, reenter, k)
+                pre = snapshot(w, extra)
+                nested, _ = run_with(wk, {})
+                post = snapshot(w, extra)
+                again, _ = run_with(fresh_wrappers(), {})
+                out.append({"kind": "ro", "op": name, "cb": cbname + ":reentrant", "k": k, "pre": pre, "post": post, "clean": clean,
+                            "again": again, "faulted": nested})
     return out
 
 
@@ -287,6 +326,9 @@ def handed_out(w, S, uni):
     uni2 = Universe(laws=law)
     out.append(("UniverseLaws.edge_whitelist", lambda: law.edge_whitelist))
     out.append(("UniverseLaws.edge_whitelist[Vertex]", lambda: law.edge_whitelist[Vertex]))
+    law0 = UniverseLaws(edge_whitelist={})          # an EMPTY whitelist is a whitelist too (not None)
+    law.twin = law0                                  # (kept reachable for the snapshot and the tables below)
+    out.append(("UniverseLaws.edge_whitelist(empty)", lambda: law0.edge_whitelist))
     if all(P.qdom(S, v) for v in range(1, n + 1)) and all(0 not in S["ends"][e] for e in range(S["nl"])) and n:
         for name, fn in (("bft", breadthfirst.bft), ("dft_recursive", depthfirst.dft_recursive), ("dft_iterative", depthfirst.dft_iterative)):
             out.append((f"{name}(1)", lambda fn=fn: fn(uni, w.o(1), direction_sensitive=1, unknown_handling=1)))
@@ -301,7 +343,7 @@ def run_snap(w, S, spec):
     sel = spec.get("select")
 
     def wl():
-        return guarded(lambda: norm_map(w, law.edge_whitelist))
+        return guarded(lambda: norm_map(w, law.edge_whitelist)) + "|" + guarded(lambda: norm_map(w, law.twin.edge_whitelist))
 
     # the FIRST answer of every query in this state (with the memo on: the one computed on a miss - the list that is
     # also put into the memo must not be the list handed to the caller); taken before anything else asks
